@@ -184,13 +184,27 @@ fn run_e1_property(id: &str, thorough: bool, ev: &mut Evidence, t0: Instant) {
     let deadline = Some(t0 + cap);
     let seeds = families::fs_with(&verif_dir().join("seeds"), thorough);
     // order: small / dense / deep families first (never capped), bulk families last (capped in the quick tier)
-    let mut fams: Vec<families::Family> = vec![families::f1(), families::fsetup(if thorough { 12 } else { 4 }, if thorough { 8 } else { 3 }), seeds, if thorough { families::fplus(families::interior_squares(), 3, "every interior square") } else { families::fplus(vec![42, 21, 35], 3, "traps c3 and f6, d4") }];
+    let mut fams: Vec<families::Family> = vec![families::f1(), families::fsetup(if thorough { 12 } else { 4 }, if thorough { 8 } else { 3 }), seeds, if thorough { families::fplus(families::interior_squares(), 3, "every interior square") } else { families::fplus(vec![21, 35], 3, "trap f6, d4 (the plus around trap c3 is the padded family FPX)") }];
     let uncapped = fams.len();
     // C14 explores path-sensitively (every order of steps separately); the per-turn record does not depend on piece
     // kinds beyond rabbit / non-rabbit / strength order, so its quick tier uses six kinds for the 2-piece boards
-    fams.push(if id == "C14" && !thorough { families::f2k(&families::KINDS6B, "RCErce") } else { families::f2() });
+    // all 144 kind pairs where the pairwise strength relation is the point (steps, pushes, pulls, freezing: C01, C07, C12)
+    // and for the repetition properties (C05, C06: cheap oracles); the other quick tiers use four strength levels (every
+    // single kind on every square, incl. its capture on every trap, is covered by F1)
+    fams.push(if thorough || matches!(id, "C01" | "C05" | "C06" | "C07" | "C12") {
+        families::f2()
+    } else if id == "C14" {
+        families::f2k(&families::KINDS6B, "RCErce")
+    } else {
+        families::f2k(&families::KINDS8, "RCDErcde")
+    });
     if thorough || !matches!(id, "C05" | "C06" | "C08" | "C10" | "C14") {
-        fams.push(families::fd(2, 2, families::all_anchors(2, 2), 3, "all 49 anchors"));
+        if thorough {
+            fams.push(families::fd(2, 2, families::all_anchors(2, 2), 3, "all 49 anchors"));
+        } else {
+            let a: Vec<(usize, usize)> = families::all_anchors(2, 2).into_iter().filter(|(f, r)| (f + r) % 2 == 0).collect();
+            fams.push(families::fd(2, 2, a, 3, "the 25 anchors with file + row even (every square is covered)"));
+        }
     }
     if thorough {
         fams.push(families::f3w(None, &families::ALL_KINDS, "all 36 windows, all 12 kinds"));
@@ -202,13 +216,17 @@ fn run_e1_property(id: &str, thorough: bool, ev: &mut Evidence, t0: Instant) {
         fams.push(families::f4w(&families::KINDS6B, "RCErce"));
     } else if matches!(id, "C01" | "C02" | "C04" | "C07" | "C12" | "C13") {
         // three pieces at distance (pusher / victim / supporter or blocker): the properties about local rule geometry
-        fams.push(families::f3w(Some(&families::QUICK_ANCHORS5), &families::KINDS6B, "5 windows (a1 corner, h8 corner, c3-centred, f6-centred, centre), kinds RCErce (three strength levels incl. the rabbit; every per-type code path is already covered on every square by F2)"));
+        fams.push(families::f3w(Some(&families::QUICK_ANCHORS3), &families::KINDS6B, "3 windows (a1 corner, f6-centred, centre), kinds RCErce (three strength levels incl. the rabbit; every per-type code path is already covered on every square by F2)"));
     }
     let mut first_f1: Option<report::Stats> = None;
     // padded local family: the plus fillings around c3 (and, rotated and colour-swapped, around f6) with 16 background pieces
     for image in [false, true] {
         if report::stopped() {
             break;
+        }
+        // the rotated, colour-swapped image runs in quick only for the properties about local rule geometry
+        if image && !thorough && !matches!(id, "C02" | "C10" | "C12" | "C13") {
+            continue;
         }
         let (fam, mask) = families::fplus_padded(image, 3);
         // C04 is decided at turn starts: the padded roots themselves (21 pieces), not the turn-start states behind them
